@@ -299,7 +299,7 @@ class CallMixin:
             r.st = v.st
             self.fact(z3.Implies(v.term != 0, t < 0))
             return r
-        if isinstance(v, VFunc) and v.kind == 'class':
+        if (isinstance(v, VFunc) and v.kind == 'class') or isinstance(v, VCls):
             return VCls(z3.IntVal(self.cls_id('type')), 'type')
         raise Unsupported(f'type() of {type(v).__name__}')
 
